@@ -37,6 +37,7 @@ def parseTxMsgs : Nat → List String → Option (List TxMsg)
 /-- returns (new state, answer) -/
 def handleAuth (st : AuthState) : List String → AuthState × String
   | ["cfg", "admin", role, addr] => ({ st with admin := st.admin.add (role, addr) }, "ok")
+  | ["reimport"] => (st, "ok")   -- export → import round trip of the role table: nothing may change
   | ["cfg", "oracle", "-"] => ({ st with oracleAdmin := none }, "ok")
   | ["cfg", "oracle", addr] => ({ st with oracleAdmin := some addr }, "ok")
   | ["cfg", "clp", "-"] => ({ st with clpWhitelist := none }, "ok")
